@@ -49,6 +49,11 @@ def split_lon(lon):
     v = lon[1]
     if v[0] == "call" and v[1] == "pos":
         v = v[2]
+    if v[0] == "mul":
+        sums = [f for f in v[1:] if f[0] == "add"]
+        if len(sums) == 1:
+            others = [f for f in v[1:] if f is not sums[0]]
+            v = T.add(*[T.mul(x, *others) for x in sums[0][1:]])
     parts = v[1:] if v[0] == "add" else (v,)
     off = []
     hit = None
